@@ -89,4 +89,6 @@ int cmd_ieee (int argc, char **argv) ;
 
 void iolog_account (int *blocks, long *bytes) ;
 
+/* fdworld.c (C19: real descriptors) */
+void op_fdworld (char **tok, int ntok) ;
 #endif
